@@ -127,6 +127,13 @@ func readSweep(j job) (r result) {
 			res := evalJob(job{Kind: map[bool]string{false: "read", true: "read-one"}[one], Src: string(in)})
 			switch res.Class {
 			case "", "parse-error", "partial", "reader-error", "end-of-file":
+			case "error", "type-error":
+				// malformed contents of #nA(...) are reported by the array code as error / type-error
+				// conditions (Lisp conditions of a documented class, not parse errors); only the templates
+				// reach them, the byte sweeps keep the strict list
+				if j.Src != "templates" && res.Fault == "" {
+					res.Fault = "condition of class " + res.Class + " from the reader"
+				}
 			default:
 				if res.Fault == "" {
 					res.Fault = "condition of class " + res.Class + " from the reader"
@@ -164,6 +171,10 @@ func readSweep(j job) (r result) {
 				}
 			}
 		}
+	case "templates": // structured inputs longer than the exhaustive sweeps reach
+		for _, in := range readerTemplates() {
+			try([]byte(in))
+		}
 	default: // random strings, syntax bytes over-represented
 		for i := 0; i < j.Count; i++ {
 			n := 1 + rng.Intn(24)
@@ -177,6 +188,45 @@ func readSweep(j job) (r result) {
 			}
 			try(in)
 		}
+	}
+	return
+}
+
+// readerTemplates: dispatch macros with a numeric argument applied to nested contents (#nA #n( #n* #nR #C #S),
+// numbers with every exponent marker and exponents from 0 to 10^8, deep nesting, and tokens at the limits
+// (added after a review: #2A() faulted and no generated input reached it).
+func readerTemplates() (out []string) {
+	contents := []string{"()", "(())", "((()))", "(1)", "((1))", "((1 2) (3 4))", "((1 2) (3))", "(() ())", "(1 . 2)", "((1 . 2))",
+		"nil", "1", "x", "\"ab\"", "(\"ab\" \"cd\")", "#(1 2)", "(#(1 2))", "(", ")", "", " ", "(nil)", "((nil))", "(() . ())"}
+	for _, n := range []string{"", "0", "1", "2", "3", "4", "7", "8", "9", "10", "99", "1024", "99999999999999999999"} {
+		for _, c := range contents {
+			for _, m := range []string{"A", "a", "(", "*", "R", "r", "C", "S", "=", "#", "P", "'", "."} {
+				if m == "(" {
+					out = append(out, "#"+n+c)
+				} else {
+					out = append(out, "#"+n+m+c)
+				}
+			}
+		}
+	}
+	for _, mant := range []string{"1", "-1", "+1", "1.5", ".5", "1.", "0", "0.0", "123456789012345678901234567890", "1/2", "1/0", "0/0", "-0"} {
+		for _, m := range []string{"e", "d", "s", "f", "l", "E", "D", "S", "F", "L"} {
+			for _, e := range []string{"", "0", "1", "-1", "+1", "9", "38", "39", "99", "308", "309", "999", "-999", "4932", "99999", "99999999", "-99999999",
+				"99999999999999999999", "1.5", "1e1"} {
+				out = append(out, mant+m+e)
+			}
+		}
+	}
+	for _, depth := range []int{1, 10, 100, 1000, 10000} {
+		out = append(out, strings.Repeat("(", depth)+strings.Repeat(")", depth), strings.Repeat("(", depth), strings.Repeat(")", depth),
+			strings.Repeat("'", depth)+"a", strings.Repeat("#(", depth)+strings.Repeat(")", depth), strings.Repeat("`", depth)+"a",
+			strings.Repeat("#2A(", depth)+strings.Repeat(")", depth), strings.Repeat(",", depth)+"a", strings.Repeat("#'", depth)+"a")
+	}
+	for _, t := range []string{"#\\", "#\\a", "#\\Space", "#\\nosuchname", "#\\u+110000", "#\\u+FFFFFFFFFF", "#\\U+41", "#b", "#b2", "#b102", "#o8", "#xg", "#x-ff", "#36rzz", "#37r1", "#0r1", "#1r1",
+		"#*", "#*2", "#*0101", "#3*01", "#2*0101", "#|", "#|#|", "#||#", "#| |# 1", "|", "||", "|a", "a|b|c", "\\", "a\\", "\"", "\"\\", "\"\\\"", "@", "@2024-01-02", "@2024-13-45T99:99:99Z", "@x",
+		"#.(+ 1 2)", "#.", "#+sbcl 1 2", "#-sbcl 1", "#+", "#-", "#:", "#:a", "#1=", "#1#", "#1=(a . #1#)", "a:b", "a::b", "a:::b", ":", "::", "a:", ":a:b", "keyword:a", "nosuchpackage:a", "cl:car", "cl::car", "cl:nosuchsymbol",
+		",", ",@", ",.", "`(a ,b ,@c)", ",a", "`,a", "`,@a", ".", "..", "...", "(. a)", "(a .)", "(a . b c)", "(a . . b)", "( . )", "1+", "-", "+", "1-", "+.", "-.", "+.e1", "1e", "1e+", "e1", ".e1"} {
+		out = append(out, t)
 	}
 	return
 }
